@@ -3286,12 +3286,14 @@ class NonTensorData:
         for data in list_of_non_tensor:
             if not isinstance(data, NonTensorData):
                 if raise_if_non_unique:
+                    # the unique value of the nested stack (raises if it has several):
+                    # it is compared with the values of the other members like any other
                     data = cls._stack_non_tensor(
                         data, raise_if_non_unique=raise_if_non_unique
                     )
                 else:
                     return_stack = True
-                break
+                    break
             if firstdata is NO_DEFAULT:
                 firstdata = data.data
             ids.add(id(data.data))
